@@ -216,8 +216,8 @@ VARIANTS = ["plain", "explicit-kind", "defaults-omitted", "long-display-name", "
 # SPEC (XML Schema part 2): valid lexical forms that are not the canonical ones the SDK's own writer emits, with the value
 # they denote written down as the canonical token of py/vf/canon.py (type name of the Python value, Python-native rendering).
 LEXICAL_FORMS = [
-    ("xs:decimal", ".5", ["v", "Decimal", "0.5"]), ("xs:decimal", "3.", ["v", "Decimal", "3"]), ("xs:decimal", "+1.50", ["v", "Decimal", "1.5"]),
-    ("xs:decimal", "-.25", ["v", "Decimal", "-0.25"]), ("xs:decimal", "0012.0", ["v", "Decimal", "12"]),
+    ("xs:decimal", ".5", ["v", "Decimal", "5E-1"]), ("xs:decimal", "3.", ["v", "Decimal", "3E0"]), ("xs:decimal", "+1.50", ["v", "Decimal", "15E-1"]),
+    ("xs:decimal", "-.25", ["v", "Decimal", "-25E-2"]), ("xs:decimal", "0012.0", ["v", "Decimal", "12E0"]),
     ("xs:integer", "+5", ["v", "int", "5"]), ("xs:integer", "007", ["v", "int", "7"]), ("xs:integer", "-0", ["v", "int", "0"]),
     ("xs:int", "+2147483647", ["v", "Int", "2147483647"]), ("xs:long", "-009", ["v", "Long", "-9"]), ("xs:short", "+1", ["v", "Short", "1"]),
     ("xs:byte", "-128", ["v", "Byte", "-128"]), ("xs:unsignedByte", "255", ["v", "UnsignedByte", "255"]),
